@@ -44,10 +44,16 @@ def seed():
 
 
 def load_findings():
-    if not os.path.exists(FINDINGS_FILE):
-        return []
-    with open(FINDINGS_FILE) as f:
-        return json.load(f)["findings"]
+    out = []
+    if os.path.exists(FINDINGS_FILE):
+        with open(FINDINGS_FILE) as f:
+            out += json.load(f)["findings"]
+    import glob
+
+    for p in sorted(glob.glob(os.path.join(VERIF, "findings.d", "*.json"))):
+        with open(p) as f:
+            out += json.load(f)["findings"]
+    return out
 
 
 def jdump(o):
